@@ -19,6 +19,7 @@ EXPLANATION = (
     "parser AST variant, so every identifier is resolved; (NAMES) lowering and emission never read variable names except "
     "the `start` lookup and external names: emitted names are V<id>; (DUP) duplicate globals are reported on an occupied "
     "namespace entry."
+    ' (LOOKUP qualified) the head of `x.f` is looked up like any name - locals first (known finding); (DECL-ORDER annotation-before-binder) type annotations are resolved before the binders they annotate are in scope.'
 )
 UNDECIDED = "the renaming-invariance theorem itself (follows from SCOPE+LOOKUP+NAMES only together with determinism of id allocation, C16)."
 
